@@ -256,6 +256,51 @@ def several_packages_case(ctx, k, tmp):
             return
 
 
+def cross_uuid_case(ctx, k, tmp):
+    """two resources built in memory, the referred one addressing its objects by uuid (none handed out yet): the referring
+    one is saved, then the other one, then the referring one again — nothing was edited, the two documents of the referring
+    resource are the same bytes (XMI and JSON; single and many-valued references)"""
+    import os
+    from pyecore import ecore as E
+    from pyecore.resources import ResourceSet, URI
+    from pyecore.resources.json import JsonResource
+    rng = common.sub_rng(ctx.seed, 'C16', 'cross-uuid', k)
+    fmt = 'xmi' if k % 2 == 0 else 'json'
+    pk = E.EPackage('cu', f'http://verif/c16/cu{k}', 'cu')
+    A = E.EClass('A')
+    pk.eClassifiers.append(A)
+    A.eStructuralFeatures.extend([E.EAttribute('name', E.EString), E.EReference('kids', A, upper=-1, containment=True),
+                                  E.EReference('one', A), E.EReference('many', A, upper=-1)])
+    d = os.path.join(tmp, f'cu{k}')
+    os.makedirs(d, exist_ok=True)
+    rs = ResourceSet()
+    rs.resource_factory['json'] = lambda uri: JsonResource(uri)
+    pm, pp = os.path.join(d, f'main.{fmt}'), os.path.join(d, f'parts.{fmt}')
+    rm, rp = rs.create_resource(URI(pm)), rs.create_resource(URI(pp))
+    rp.use_uuid = True
+    rm.use_uuid = rng.random() < .3
+    main, parts = A(name='main'), A(name='parts')
+    parts.kids.extend([A(name=f'p{i}') for i in range(rng.randint(2, 4))])
+    rm.append(main); rp.append(parts)
+    main.one = rng.choice(list(parts.kids))
+    main.many.extend(rng.sample(list(parts.kids), rng.randint(1, len(parts.kids))) + [parts])
+    ctx.evaluations += 1
+    ctx.count('cross-uuid/' + fmt)
+    ctx.nontriv(('cross-uuid', k))
+    try:
+        rm.save(); first = open(pm, 'rb').read()
+        rp.save()
+        rm.save(); second = open(pm, 'rb').read()
+    except Exception as e:
+        ctx.violate({'clause': 'not-deterministic', 'format': fmt, 'history': 'cross-uuid'},
+                    f'saving a resource that refers into a uuid resource raised {type(e).__name__}: {e}', {'case': k, 'format': fmt, 'kind': 'cross-uuid'})
+        return
+    if first != second:
+        ctx.violate({'clause': 'not-deterministic', 'format': fmt, 'history': 'cross-uuid'},
+                    f'{fmt}: a resource referring into a resource that uses uuids was saved, the other resource was saved, the first was saved '
+                    f'again (no edit): {len(first)} bytes, then {len(second)} different ones', {'case': k, 'format': fmt, 'kind': 'cross-uuid'})
+
+
 def run(ctx):
     common.use_repo()
     n = 80 if ctx.quick() else 2000
@@ -270,6 +315,7 @@ def run(ctx):
             run_case(ctx, h, tmp)
         for k in range(n // 2):
             several_packages_case(ctx, k, tmp)
+            cross_uuid_case(ctx, k, tmp)
     finally:
         shutil.rmtree(tmp, ignore_errors=True)
     ctx.assumptions += ['OS-level write failures (disk full) are outside the statement ("cannot be serialized")',
